@@ -860,6 +860,9 @@ var vrtIntrinsics = map[string]intrinsicFn{
 	"IteF": func(ex *Exec, _ *ssa.Function, a []Value, _ ssa.Instruction) Value {
 		return ex.iteValue(a[0], a[1], a[2])
 	},
+	"IteI": func(ex *Exec, _ *ssa.Function, a []Value, _ ssa.Instruction) Value {
+		return ex.iteValue(a[0], ex.normInt(a[1]), ex.normInt(a[2]))
+	},
 	"Nm": func(ex *Exec, _ *ssa.Function, a []Value, _ ssa.Instruction) Value {
 		return nameOf(ex, a)
 	},
